@@ -20,9 +20,25 @@ PROP = {
     ],
     "exhaustive": False,
     "technique": "Lean 4 proof over a port of the per-kind Equal / Less / HashInput methods and of StaticType.Equal / ID + correspondence stream with law oracles",
-    "level_text": "TODO",
-    "level_note": "TODO",
-    "assumptions": [],
+    "level_text": "Lean theorems about a code-shaped model of the per-kind Equal / Less / LessEqual / Greater / "
+                  "GreaterEqual / HashInput methods (28 number kinds, strings and characters as normalised bytes, booleans, "
+                  "addresses, paths, enums, type values over a static-type algebra with StaticType.Equal and StaticType.ID, "
+                  "optionals, arrays, dictionaries): == is an equivalence on well-formed dictionary-free values; < is a strict "
+                  "total order with <=, >, >= derived and trichotomy with ==; equal values have equal hash input; type IDs are "
+                  "invariant under permutation of intersection members / entitlement sets; equal keys are interchangeable in "
+                  "the association-list dictionary. Tag bytes regenerated from hashablevalue.go (distinct, pinned, each "
+                  "HashInput uses its own). Tied to /repo by stream `eqhash`: pairs and triples (boundary numbers of every kind, "
+                  "canonically equivalent spellings, type values with members in different orders, nested optionals / arrays / "
+                  "dictionaries) through the real methods, and as keys of {HashableStruct: Int} dictionaries in scripts in "
+                  "both engines; law oracles on Go's answers alone (symmetry, reflexivity, transitivity, trichotomy, derived "
+                  "comparisons, hash equality for equal keys, no hash collision of unequal keys, dictionary size and lookups).",
+    "level_note": "Partial: the equivalence theorem excludes values containing dictionaries (DictionaryValue.Equal is "
+                  "compared with the model and the symmetry/transitivity oracles only); hash injectivity is an oracle of the "
+                  "stream, not a theorem. Unicode normalisation is trusted (x/text); function types are outside the model.",
+    "assumptions": ["Val.wf: numbers in range of their kind, 8-byte addresses, intersection and entitlement-set members "
+                    "listed once, no unknown type value (TypeValue{Type: nil}, produced only by decoding stored data; it is "
+                    "deliberately unequal to itself: unknown_type_not_reflexive_witness)",
+                    "a primitive static type is identified by its type ID (stream op `prims`, exhaustive)"],
     "trusted_base": ["hand-written port Verif.Model.Val.Hashable validated by stream eqhash",
                      "vtool gen-hashtags (go/ast constant extraction)",
                      "Go harness cmd/vharness/stream_eqhash.go", "driver Drv/Eqhash.lean"],
